@@ -155,7 +155,25 @@ def run_naming(ctx):
     ctx.checker_cmds.append("rvh trace-naming -> tlc Trace_Naming (B64Encode / SegStreamName of FormatOps on %d ids)" % n)
 
 
-MODULES = {"bpq": run_bpq, "segbuf": run_segbuf, "bloom": run_bloom, "naming": run_naming}
+def run_preprocess(ctx):
+    """Trace_Preprocess.tla: preprocessing.rs (unrolled second copy of the symbol conversion, FFI export) vs the documented normalisation."""
+    tp = os.path.join(ctx.work, "preprocess.ndjson")
+    _, out, _, _ = C.rvh(["trace-preprocess", "--out", tp, "--seed", str(ctx.seed), "--per-len", "6" if ctx.tier == "quick" else "60"])
+    n = json.loads(out)["inputs"]
+    evs = C.read_ndjson(tp)
+    acc, rej, st, gen = C.validate_trace("Trace_Preprocess", "Trace_Preprocess.cfg", [("preprocess", evs)], os.path.join(ctx.work, "tprep"), timeout=1500)
+    ctx.evaluations += n
+    ctx.traces += n if acc else (rej[0]["index_in_case"] if rej else 0)
+    ctx.nontrivial += sum(1 for e in evs if len(e["inp"]) >= 4 and len(e["out"]) not in (0, len(e["inp"])))   # main loop taken, some bytes dropped, some kept
+    ctx.states += st
+    ctx.transitions += gen
+    ctx.sample({"preprocess_event": evs[-1]})
+    for r in rej:
+        ctx.violation("preprocess_%d" % r["index_in_case"], {"kind": "TRACE-Preprocess", "sig": {"module": "Preprocess", "kind": "trace"}, "rejected": {k: r[k] for k in ("event", "detail")}})
+    ctx.checker_cmds.append("rvh trace-preprocess -> tlc Trace_Preprocess (%d inputs)" % n)
+
+
+MODULES = {"bpq": run_bpq, "segbuf": run_segbuf, "bloom": run_bloom, "naming": run_naming, "preprocess": run_preprocess}
 
 
 def run(ctx):
